@@ -19,7 +19,7 @@ import (
 func init() {
 	register(&propDef{
 		ID:          "C15",
-		Explanation: "Equality with single-file generation over all trees, worker counts and schedules is not decided. Decides the structural reasons it is true: R1 every field of the event handler that has a sibling `<field>Mutex` is accessed (outside the constructor) only with that mutex in the must-held set; R2 every path handed to the file writer, os.WriteFile, os.Create or os.Remove in the per-file handler derives from that event's own file name through TrimSuffix+constant suffix or the development text-file name function (no other file is touched); R3 the bytes written are the result of format.Source over the generator's buffer, the hash gating the write is computed over that same value, and the write sits inside the hash test; R4 the handler's error reaches the error channel, every non-fatal error increments the counter, the command's final return is non-nil when the counter is positive, and in the per-file generator the errors of parsing, generation, formatting and both writes reach a return; R5 both directory walks consult skipdir.ShouldSkip for directories and return SkipDir, and ShouldSkip's true-returns are exactly vendor, node_modules, dot- and underscore-prefixed; R6 (VTA call graph) nothing reachable from generator.Generate or the parser's Parse calls time.Now, math/rand or os.Getenv, and the generator does not range over a map; R7 the wait-group Add and the semaphore acquire precede the `go` statement, the worker defers Done and the release, and the post-generation channel is closed only after the wait. R8 a slice field of the handler that per-event methods append to without copying is handed to the constructor without declared spare capacity (no make(…, len, cap>len), no re-slice). R9 every output file is replaced, not overwritten in place: os.WriteFile / os.Create, or os.OpenFile with O_TRUNC (constant-evaluated flags). R10 the lazy-mode `already up to date` test is a strict modification-time comparison. NOT decided: file-system races with other processes, fsnotify delivery, spare capacity produced by append's own growth.",
+		Explanation: "Equality with single-file generation over all trees, worker counts and schedules is not decided. Decides the structural reasons it is true: R1 every field of the event handler that has a sibling `<field>Mutex` is accessed (outside the constructor) only with that mutex in the must-held set; R2 every path handed to the file writer, os.WriteFile, os.Create or os.Remove in the per-file handler derives from that event's own file name through TrimSuffix+constant suffix or the development text-file name function (no other file is touched); R3 the bytes written are the result of format.Source over the generator's buffer, the hash gating the write is computed over that same value, and the write sits inside the hash test; R4 the handler's error reaches the error channel, every non-fatal error increments the counter, the command's final return is non-nil when the counter is positive, and in the per-file generator the errors of parsing, generation, formatting and both writes reach a return; R5 both directory walks consult skipdir.ShouldSkip for directories and return SkipDir, and ShouldSkip's true-returns are exactly vendor, node_modules, dot- and underscore-prefixed; R6 (VTA call graph) nothing reachable from generator.Generate or the parser's Parse calls time.Now, math/rand or os.Getenv, and the generator does not range over a map; R7 the wait-group Add and the semaphore acquire precede the `go` statement, the worker defers Done and the release, and the post-generation channel is closed only after the wait. R8 a slice field of the handler that per-event methods append to without copying is handed to the constructor without declared spare capacity (no make(…, len, cap>len), no re-slice). R9 every output file is replaced, not overwritten in place: os.WriteFile / os.Create, or os.OpenFile with O_TRUNC (constant-evaluated flags). R10 the lazy-mode `already up to date` test is a strict modification-time comparison. R11 the file name compiled into generated code is computed by filepath.Rel (no string surgery on paths). NOT decided: file-system races with other processes, fsnotify delivery, spare capacity produced by append's own growth.",
 		Assumptions: []string{"format.Source is deterministic", "sha256 collisions do not occur"},
 		Trusted:     []string{"go/types", "x/tools go/packages, go/cfg, go/ssa, callgraph/vta"},
 		Run:         runC15,
@@ -30,6 +30,7 @@ func runC15(c *Ctx) {
 	c.load("./cmd/templ/generatecmd", "./cmd/templ/generatecmd/watcher", "./internal/skipdir", "./generator", "./parser/v2")
 	outputFilesReplaced(c, "C15.R9")
 	lazySkipIsStrict(c, "C15.R10")
+	fileNameIsRelByPathRules(c, "C15.R11")
 	p := c.pkg("cmd/templ/generatecmd")
 	info := p.TypesInfo
 
@@ -488,52 +489,79 @@ func runC15(c *Ctx) {
 	if fd := findFunc(sp, "", "ShouldSkip"); fd == nil {
 		c.viol("C15.R5", "anchor-lost:skipdir.ShouldSkip", "", "skipdir.ShouldSkip (exported) not found")
 	} else {
-		var eq, pre []string
-		okShape := true
-		for _, st := range fd.Body.List {
-			is, ok := st.(*ast.IfStmt)
-			if !ok {
-				continue
-			}
-			ret, isRet := is.Body.List[len(is.Body.List)-1].(*ast.ReturnStmt)
-			if !isRet || len(ret.Results) != 1 {
-				continue
-			}
-			if types.ExprString(ret.Results[0]) != "true" {
-				continue
-			}
-			for _, a := range boolAtomsRaw(is.Cond) {
-				switch x := a.(type) {
-				case *ast.BinaryExpr:
-					if x.Op == token.EQL {
-						if s, ok := constString(sp.TypesInfo, x.Y); ok {
-							eq = append(eq, s)
-							continue
+		// over the PATHS of the function (if-chains, switches and loops over constant lists alike): which exact names
+		// and which prefixes make it return true
+		inits := map[types.Object]ast.Expr{}
+		for _, f := range sp.Syntax {
+			for _, d := range f.Decls {
+				if gd, ok := d.(*ast.GenDecl); ok && gd.Tok == token.VAR {
+					for _, spc := range gd.Specs {
+						vs := spc.(*ast.ValueSpec)
+						for i, nm := range vs.Names {
+							if i < len(vs.Values) {
+								inits[sp.TypesInfo.Defs[nm]] = vs.Values[i]
+							}
 						}
 					}
-					okShape = false
-				case *ast.CallExpr:
-					if fn := calleeOf(sp.TypesInfo, x); fn != nil && fullName(fn) == "strings.HasPrefix" {
-						if s, ok := constString(sp.TypesInfo, x.Args[1]); ok {
-							pre = append(pre, s)
-							continue
-						}
-					}
-					okShape = false
-				default:
-					okShape = false
 				}
 			}
-			// all atoms must be joined by ||
-			if strings.Contains(types.ExprString(is.Cond), "&&") {
-				okShape = false
+		}
+		den := &denum{info: sp.TypesInfo, pkg: sp.Types, inits: inits, limit: 5000}
+		den.finish(den.run(fd.Body.List, []dstate{{env: map[types.Object]ast.Expr{}}}))
+		eqSet, preSet := map[string]bool{}, map[string]bool{}
+		okShape := den.undecided == ""
+		for _, pth := range den.paths {
+			if pth.Ret == nil || len(pth.Ret.Results) != 1 || types.ExprString(pth.Ret.Results[0]) != "true" {
+				continue
 			}
+			// the LAST true atom on the path is what made it return true
+			decided := false
+			for k := len(pth.Conds) - 1; k >= 0 && !decided; k-- {
+				pc := pth.Conds[k]
+				if !pc.Val {
+					continue
+				}
+				switch x := ast.Unparen(pc.Expr).(type) {
+				case *ast.BinaryExpr:
+					if x.Op == token.EQL {
+						for _, side := range []ast.Expr{x.X, x.Y} {
+							if s, ok := constString(sp.TypesInfo, den.deref(side, pth.Env)); ok {
+								eqSet[s] = true
+								decided = true
+							}
+						}
+					}
+				case *ast.CallExpr:
+					if fn := calleeOf(sp.TypesInfo, x); fn != nil && fullName(fn) == "strings.HasPrefix" && len(x.Args) == 2 {
+						if s, ok := constString(sp.TypesInfo, den.deref(x.Args[1], pth.Env)); ok {
+							preSet[s] = true
+							decided = true
+						}
+					}
+				}
+				if !decided {
+					okShape = false
+					decided = true
+				}
+			}
+			if !decided {
+				okShape = false // returns true unconditionally
+			}
+		}
+		var eq, pre []string
+		for k := range eqSet {
+			if k != "." { // the `path == "."` guard returns false and is not on a true path; kept for safety
+				eq = append(eq, k)
+			}
+		}
+		for k := range preSet {
+			pre = append(pre, k)
 		}
 		sort.Strings(eq)
 		sort.Strings(pre)
 		want := strings.Join(eq, ",") == "node_modules,vendor" && strings.Join(pre, ",") == ".,_"
 		c.check(okShape && want, "C15.R5", funcKey(sp, fd)+"|skip-set", c.pos(fd.Pos()), "skips exactly vendor, node_modules and names starting with . or _",
-			fmt.Sprintf("skipdir.ShouldSkip returns true for names %v and prefixes %v (expected vendor/node_modules and ./_)", eq, pre))
+			fmt.Sprintf("skipdir.ShouldSkip returns true for the exact names %v and for names with the prefixes %v (expected exactly vendor / node_modules, and the prefixes . and _): a directory such as `vendors` or `node_modules_license` would be skipped, or a dependency directory would be generated into", eq, pre))
 		// the final return is false, and "." is not skipped
 		lastFalse := false
 		if ret, ok := fd.Body.List[len(fd.Body.List)-1].(*ast.ReturnStmt); ok && types.ExprString(ret.Results[0]) == "false" {
@@ -1001,5 +1029,82 @@ func lazySkipIsStrict(c *Ctx, rule string) {
 		})
 	}
 	c.count("lazy_skip_tests", n)
+	c.floor(rule, 1)
+}
+
+// fileNameIsRelByPathRules: C15.R11 — the template name that is compiled into the generated file (error locations) is
+// the path relative to the base directory computed by path/filepath.Rel, which cleans both sides. String surgery on
+// the path (TrimPrefix of the base) gives a different name when the same root is spelled with a trailing slash or a
+// /./ segment: the same tree then generates different files depending on how -path was typed.
+func fileNameIsRelByPathRules(c *Ctx, rule string) {
+	p := c.pkg("cmd/templ/generatecmd")
+	info := p.TypesInfo
+	n := 0
+	for _, fd := range allFuncDecls(p) {
+		ast.Inspect(fd.Body, func(x ast.Node) bool {
+			call, ok := x.(*ast.CallExpr)
+			if !ok || len(call.Args) != 1 {
+				return true
+			}
+			fn := calleeOf(info, call)
+			if fn == nil || fn.Name() != "WithFileName" || fn.Pkg() == nil || !strings.HasSuffix(fn.Pkg().Path(), "/generator") {
+				return true
+			}
+			n++
+			// provenance of the argument through local assignments
+			seen := map[types.Object]bool{}
+			viaRel, surgery := false, ""
+			var walk func(e ast.Expr)
+			walk = func(e ast.Expr) {
+				ast.Inspect(e, func(y ast.Node) bool {
+					switch y := y.(type) {
+					case *ast.CallExpr:
+						if cf := calleeOf(info, y); cf != nil {
+							switch fullName(cf) {
+							case "path/filepath.Rel":
+								viaRel = true
+								return false
+							case "strings.TrimPrefix", "strings.CutPrefix", "strings.Replace", "strings.ReplaceAll", "strings.TrimLeft":
+								surgery = fullName(cf)
+							}
+						}
+					case *ast.SliceExpr:
+						surgery = "a slice expression"
+					case *ast.Ident:
+						ob := info.ObjectOf(y)
+						if v, ok := ob.(*types.Var); ok && !v.IsField() && !seen[ob] {
+							seen[ob] = true
+							ast.Inspect(fd.Body, func(z ast.Node) bool {
+								if as, ok := z.(*ast.AssignStmt); ok {
+									for i, l := range as.Lhs {
+										if lid, ok := l.(*ast.Ident); ok && info.ObjectOf(lid) == ob {
+											if len(as.Rhs) == len(as.Lhs) {
+												walk(as.Rhs[i])
+											} else {
+												walk(as.Rhs[0])
+											}
+										}
+									}
+								}
+								return true
+							})
+						}
+					}
+					return true
+				})
+			}
+			walk(call.Args[0])
+			why := ""
+			if surgery != "" {
+				why = "it is cut out of the path with " + surgery
+			} else if !viaRel {
+				why = "it does not come from filepath.Rel"
+			}
+			c.check(why == "", rule, funcKey(p, fd)+"|file-name-relative-by-filepath.Rel", c.pos(call.Pos()), "the compiled-in file name comes from filepath.Rel(base, abs)",
+				fmt.Sprintf("%s: the template name compiled into the generated code is not computed by filepath.Rel — %s. A base path that is not in clean form (trailing slash, /./, /../x) then no longer matches as a prefix and the name silently falls back to something else: the same tree generates different files depending on how the root was spelled", fd.Name.Name, why))
+			return true
+		})
+	}
+	c.count("with_file_name_sites", n)
 	c.floor(rule, 1)
 }
